@@ -4,7 +4,6 @@ import GeoVerif.Ops.All
 import GeoVerif.Lemmas.C08
 import GeoVerif.Lemmas.C09
 import GeoVerif.Lemmas.C10
-import GeoVerif.Lemmas.C12
 import GeoVerif.Lemmas.C13
 import GeoVerif.Lemmas.C14
 import GeoVerif.Properties.C01
@@ -14,6 +13,7 @@ import GeoVerif.Properties.C07
 import GeoVerif.Properties.C03
 import GeoVerif.Properties.C04
 import GeoVerif.Properties.C11
+import GeoVerif.Properties.C12
 import GeoVerif.Properties.C15
 import GeoVerif.Properties.C16
 import GeoVerif.Properties.C17
